@@ -165,22 +165,64 @@ theorem containsDotDot_iff (n : Bytes) : containsDotDot n = true ↔ [46, 46] <:
 theorem allowedChar_eq_bucketChar : allowedChar = bucketChar := rfl
 theorem isLowerAlnum_eq : isLowerAlnum = isLowerOrDigit := rfl
 
+theorem splitAll_dot_eq_dotGroups (n : Bytes) : splitAll dot n = dotGroups n := by
+  induction n with
+  | nil => rfl
+  | cons x r ih =>
+    have ih' : splitAll 46 r = dotGroups r := ih
+    simp only [splitAll, dotGroups, dot, ih']
+    by_cases hx : x = 46
+    · simp [hx]
+    · simp only [hx, if_false]
+      cases dotGroups r <;> rfl
+
+/-- the repaired test of `check_bucket_name`: four dot-separated groups, all of digits -/
+def ipLikeTest (n : Bytes) : Bool :=
+  (splitAll dot n).length = 4 && (splitAll dot n).all (fun g => g.all isDigit)
+
 /-- `check_bucket_name` as the conjunction of its seven tests -/
 theorem checkBucketName_iff (n : Bytes) : checkBucketName n = true ↔
     (3 ≤ n.length ∧ n.length < 64) ∧ n.all bucketChar = true ∧
     n.head?.map isLowerOrDigit = some true ∧ n.getLast?.map isLowerOrDigit = some true ∧
-    containsDotDot n = false ∧ ipAddrOk n = false ∧ ¬ xnPrefix <+: n := by
+    containsDotDot n = false ∧ ipLikeTest n = false ∧ ¬ xnPrefix <+: n := by
   unfold checkBucketName
   simp only [Bool.if_false_left]
+  have : ((splitAll dot n).length = 4 && (splitAll dot n).all (fun g => g.all isDigit)) = ipLikeTest n := by
+    simp [ipLikeTest]
+  rw [this]
   simp
 
 theorem bucketChar_ne_colon {c : UInt8} (h : bucketChar c = true) : c ≠ colon := by
   intro e; subst e; revert h; decide
 
-/-- every name the code accepts obeys the core rules, unless it is formatted as an IP address with
-    an octet a strict parser refuses -/
-theorem accept_implies_core {n : Bytes} (h : checkBucketName n = true)
-    (hx : ipv4LooseOnlyB n = false) : CoreRules n := by
+/-- a name formatted as an IP address triggers the test -/
+theorem ipLikeTest_of_formatted {n : Bytes} (h : Ipv4Formatted n) : ipLikeTest n = true := by
+  obtain ⟨a, b, c, d, rfl, ha, hb, hc, hd⟩ := h
+  unfold ipLikeTest
+  rw [splitAll_dot_eq_dotGroups, dotGroups_append (digitRun_no_dot ha),
+    dotGroups_append (digitRun_no_dot hb), dotGroups_append (digitRun_no_dot hc),
+    dotGroups_of_not_mem (digitRun_no_dot hd)]
+  have f : ∀ g, DigitRun g → g.all isDigit = true := fun g hg => List.all_eq_true.mpr hg.2
+  simp [f a ha, f b hb, f c hc, f d hd]
+
+/-- the test fires only on four digit groups joined by periods, empty groups included -/
+theorem ipLikeTest_groups {n : Bytes} (h : ipLikeTest n = true) :
+    ∃ a b c d, n = a ++ 46 :: (b ++ 46 :: (c ++ 46 :: d)) ∧
+      (∀ x ∈ a, isDig x = true) ∧ (∀ x ∈ b, isDig x = true) ∧
+      (∀ x ∈ c, isDig x = true) ∧ (∀ x ∈ d, isDig x = true) := by
+  unfold ipLikeTest at h
+  rw [splitAll_dot_eq_dotGroups] at h
+  simp only [Bool.and_eq_true, decide_eq_true_eq] at h
+  obtain ⟨hlen, hall⟩ := h
+  match hg : dotGroups n, hlen with
+  | [a, b, c, d], _ =>
+    rw [hg] at hall
+    simp only [List.all_cons, List.all_nil, Bool.and_true, Bool.and_eq_true, List.all_eq_true] at hall
+    obtain ⟨ha, hb, hc, hd⟩ := hall
+    exact ⟨a, b, c, d, dotGroups_four hg, ha, hb, hc, hd⟩
+
+/-- every name the code accepts obeys the core rules -/
+theorem accept_implies_core {n : Bytes} (h : checkBucketName n = true) : CoreRules n := by
   obtain ⟨hlen, hch, hfirst, hlast, hdd, hip, _⟩ := (checkBucketName_iff n).mp h
   refine ⟨⟨hlen.1, by omega⟩, ?_, ?_, ?_, ?_, ?_⟩
   · intro c hc
@@ -204,12 +246,10 @@ theorem accept_implies_core {n : Bytes} (h : checkBucketName n = true)
     rw [← containsDotDot_iff, hdd] at hinf
     cases hinf
   · intro hf
-    have hfb := (ipv4FormattedB_iff n).mpr hf
-    have hs : strictIpv4B n = true := by
-      simp only [ipv4LooseOnlyB, hfb, Bool.true_and, Bool.not_eq_false'] at hx
-      exact hx
-    rw [ipAddrOk_of_strictIpv4B hs] at hip
+    rw [ipLikeTest_of_formatted hf] at hip
     cases hip
+
+theorem isLowerAlnum_dot : isLowerAlnum 46 = false := by decide
 
 /-- every name valid under the complete rules is accepted -/
 theorem full_implies_accept {n : Bytes} (h : FullRules n) : checkBucketName n = true := by
@@ -226,11 +266,31 @@ theorem full_implies_accept {n : Bytes} (h : FullRules n) : checkBucketName n = 
   · cases hd : containsDotDot n with
     | false => rfl
     | true => exact absurd ((containsDotDot_iff n).mp hd) hdd
-  · cases hi : ipAddrOk n with
+  · cases hi : ipLikeTest n with
     | false => rfl
     | true =>
-      have hcolon : colon ∉ n := fun hm => bucketChar_ne_colon (List.all_eq_true.mp hall _ hm) rfl
-      exact absurd (ipv4Formatted_of_ipAddrOk hcolon hi) hip
+      exfalso
+      obtain ⟨a, b, c4, d, hn, ha, hb, hc4, hd⟩ := ipLikeTest_groups hi
+      -- an empty group would put a period first, last, or next to another period
+      by_cases ea : a = []
+      · subst ea
+        rw [hn] at hcr
+        simp only [List.nil_append, List.cons.injEq] at hcr
+        rw [← hcr.1, isLowerAlnum_dot] at hc; cases hc
+      by_cases eb : b = []
+      · subst eb
+        exact hdd ⟨a, c4 ++ 46 :: d, by rw [hn]; simp⟩
+      by_cases ec : c4 = []
+      · subst ec
+        exact hdd ⟨a ++ 46 :: b, d, by rw [hn]; simp⟩
+      by_cases ed : d = []
+      · subst ed
+        have : n = (a ++ 46 :: (b ++ 46 :: c4)) ++ [46] := by rw [hn]; simp
+        rw [this] at hcr'
+        have := List.append_inj' hcr' rfl
+        simp only [List.cons.injEq, and_true] at this
+        rw [← this.2, isLowerAlnum_dot] at hc'; cases hc'
+      exact hip ⟨a, b, c4, d, hn, ⟨ea, ha⟩, ⟨eb, hb⟩, ⟨ec, hc4⟩, ⟨ed, hd⟩⟩
   · exact hpre xnPrefix (by simp [reservedPrefixes, xnPrefix])
 
 theorem hasDotDot_eq : hasDotDot = containsDotDot := by
